@@ -19,6 +19,7 @@ FINDINGS = {
     "D11": ("a park token is erased when the thread blocks on / is woken by an object (set_blocked/set_runnable): false deadlock", "src/rt/thread.rs set_runnable/set_blocked", "see instances"),
     "D13": ("dropping a guard is not a scheduling point and not a DPOR access: try_lock/try_read/try_write never observe the lock held after the last visible operation of the critical section", "src/rt/mutex.rs release_lock, src/rt/rwlock.rs release_*", "M A0 | sp 1 ; lk 0 ; st 1 1 sc ; ul 0 ; jn 1 | ld 1 sc ; tl 0 ; st 1 3 sc ; ul 0"),
     "D14": ("park / unpark are not scheduling points and not DPOR accesses: an unpark that precedes the park (token delivered early, or two unparks coalescing) is never explored", "src/rt/mod.rs park, src/thread.rs unpark", "A0 | sp 1 ; pk ; pk ; jn 1 | up 0 ; up 0"),
+    "D19": ("RMW atomicity against loads: two loads by one thread order a concurrent store after the store an RMW read, another pair of loads orders it before the RMW's own store (mo: 20, 10, 21 with 21 = fetch_add of 20); the store-time RMW-atomicity rule (fix 189e88b) and the transitive load rule (fix c0421c4) do not close the modification order under atomicity when LOADS add the edges", "src/rt/atomic.rs apply_load_coherence (the clock of the loaded store is raised without the RMW-atomicity closure)", "A0 | sp 1 ; sp 2 ; sp 3 ; jn 1 ; jn 2 ; jn 3 | st 0 10 rlx | st 0 20 rlx ; rmw 0 add 1 rlx | ld 0 rlx ; ld 0 rlx ; ld 0 rlx"),
     "D15": ("condvar/notify: a wake-up is delivered as a park token to a thread that is not parked yet (notify before the waiter parks) or consumed by a later park", "src/rt/condvar.rs, src/rt/notify.rs", "see instances"),
 }
 
@@ -37,8 +38,8 @@ def classify(prog, dev):
         return "D14"
     if kind == "missing" and has("tl", "trd", "twr"):
         return "D13"
-    if kind == "forbidden" and has("ld", "rmw", "cas", "fu", "aw"):
-        return "D4"
+    if kind == "forbidden" and has("rmw", "cas", "fu") and has("ld") and has("st"):
+        return "D19"
     if has("wt", "n1", "na", "nw", "nn"):
         return "D15"
     return None
@@ -67,15 +68,21 @@ def main():
         for tier in ("quick", "thorough"):
             ctx = props.Ctx(pid, tier, 1, ROOT, os.path.join(ROOT, ".work"))
             det = chk.det_family(ctx)
-            if not det:
+            heavy = chk.heavy_family(ctx)
+            if not det and not heavy:
                 continue
-            key = (tuple(det), chk.cap, str(chk.ref_mode))
+            key = (tuple(det), tuple(heavy), chk.cap, str(chk.ref_mode))
             if key not in cache:
-                fam = props.FamilyRun(ctx, det, "det", cap=chk.cap)
-                empty = props.Known("/nonexistent", pid)
-                viol, _, _ = props.oracle_compare(ctx, fam, empty, chk.ref_mode)
-                for a in fam.aborts:
-                    viol.append({"prog": a["prog"], "deviation": "abort:" + a["crash"]})
+                viol = []
+                for lines, cap in ((det, chk.cap), (heavy, chk.heavy_cap)):
+                    if not lines:
+                        continue
+                    fam = props.FamilyRun(ctx, lines, "det", cap=cap)
+                    empty = props.Known("/nonexistent", pid)
+                    v1, _, _ = props.oracle_compare(ctx, fam, empty, chk.ref_mode)
+                    viol += v1
+                    for a in fam.aborts:
+                        viol.append({"prog": a["prog"], "deviation": "abort:" + a["crash"]})
                 cache[key] = viol
             for v in cache[key]:
                 if not chk.relevant(v["deviation"]) and not v["deviation"].startswith("abort"):
